@@ -339,10 +339,15 @@ def seat_check(prop, tier, seed, work, replay):
     binary = vlib.build_harness(work)
 
     def run_script(desc, d):
+        # Join(-1) picks its seat with math/rand: the script is replayed once with those joins pinned to the seat the
+        # recorded run got, and 20 times as recorded
         sp = os.path.join(d, "s.ndjson")
         open(sp, "w").write(json.dumps(desc["script"]) + "\n")
         out = os.path.join(d, "out.ndjson")
-        vlib.drive(binary, ["seat-replay", "-scripts", sp, "-o", out])
+        vlib.drive(binary, ["seat-replay", "-scripts", sp, "-o", out, "-pin"])
+        out2 = os.path.join(d, "out2.ndjson")
+        vlib.drive(binary, ["seat-replay", "-scripts", sp, "-o", out2, "-repeat", 20])
+        open(out, "a").write(open(out2).read())
         return out
 
     if replay:
@@ -350,7 +355,7 @@ def seat_check(prop, tier, seed, work, replay):
         d = work.sub("replay")
         if desc["kind"] == "seat-script":
             out = run_script(desc, d)
-        elif desc["kind"] == "seat-explore":
+        elif desc["kind"] in ("seat-explore", "seat-driver"):
             out = os.path.join(d, "out.ndjson")
             vlib.drive(binary, desc["args"] + ["-o", out], timeout=3600)
         else:
@@ -402,6 +407,11 @@ def seat_check(prop, tier, seed, work, replay):
     stats["sim"] = vlib.drive(binary, ["seat-replay", "-scripts", simf, "-o", f, "-out-scripts", scr2])
     files[f] = dict(kind="seat-script", scripts=scr2)
     if prop == "C18":
+        # match.Table as a client of the seat manager (match/table.go)
+        f = os.path.join(d, "match.ndjson")
+        margs = ["match-random", "-runs", 150 if tier == "quick" else 4000, "-seed", seed]
+        stats["match"] = vlib.drive(binary, margs + ["-o", f])
+        files[f] = dict(kind="seat-driver", args=[str(a) for a in margs])
         f = os.path.join(d, "conc.ndjson")
         stats["conc"] = vlib.drive(binary, ["seat-conc", "-runs", T["conc_runs"], "-seed", seed, "-o", f], timeout=1200)
         files[f] = dict(kind="seat-conc", runs=T["conc_runs"], seed=seed)
@@ -428,6 +438,10 @@ def seat_check(prop, tier, seed, work, replay):
             desc.update(args=info["args"], state=rs)
             out = os.path.join(dd, "out.ndjson")
             vlib.drive(binary, info["args"] + ["-o", out], timeout=3600)
+        elif info["kind"] == "seat-driver":
+            desc.update(args=info["args"])
+            out = os.path.join(dd, "out.ndjson")
+            vlib.drive(binary, info["args"] + ["-o", out])
         else:
             desc.update(runs=info["runs"], seed=info["seed"])
             out = os.path.join(dd, "out.ndjson")
@@ -461,7 +475,7 @@ def seat_check(prop, tier, seed, work, replay):
                                      "C18 schedules: the gate hook decides check/commit interleavings of Join; the Go memory model is not explored"])
     need = {"C08": ["C08.positions.n2", "C08.positions.n3", "C08.lateJoiner", "C08.lateJoiner.dealtIn"],
             "C17": ["C17.button", "C17.insufficient"],
-            "C18": ["C18.joinAny", "C18.joinAny.full", "conc.episodes", "conc.blockedOnMutex", "conc.sameSeat"]}[prop]
+            "C18": ["C18.joinAny", "C18.joinAny.full", "conc.episodes", "conc.blockedOnMutex", "conc.sameSeat", "op.MT.Apply.ok"]}[prop]
     missing = [a for a in need if cnt.get(a, 0) == 0]
     if rc == 0 and missing:
         print("INCONCLUSIVE property=%s never exercised: %s" % (prop, ",".join(missing)))
